@@ -5,6 +5,7 @@ package gen
 import (
 	"math"
 	"math/big"
+	"math/bits"
 	"sync"
 	"unicode/utf8"
 
@@ -58,16 +59,41 @@ func ExcludedCounts() map[string]int {
 
 // ---- small draw helpers
 
-// Intn draws an int in [0,n).
+// Intn draws an int in [0,n), uniformly. rapid's own integer generators are
+// deliberately biased towards small magnitudes (a geometric bit length), which
+// makes "Chance(t, 5)" fire a third of the time and starves the tail of every
+// Pick list; so the value is assembled from unbiased single bits (rapid.Bool),
+// most significant first, with rejection. It still shrinks towards 0.
 func Intn(t *rapid.T, n int) int {
 	if n <= 1 {
 		return 0
 	}
-	return rapid.IntRange(0, n-1).Draw(t, "i")
+	k := bits.Len(uint(n - 1))
+	g := bitGens[k]
+	for {
+		v := 0
+		for _, b := range g.Draw(t, "i") {
+			v <<= 1
+			if b {
+				v |= 1
+			}
+		}
+		if v < n {
+			return v
+		}
+	}
 }
 
-// Range draws an int in [lo,hi].
-func Range(t *rapid.T, lo, hi int) int { return rapid.IntRange(lo, hi).Draw(t, "r") }
+var bitGens = func() []*rapid.Generator[[]bool] {
+	out := make([]*rapid.Generator[[]bool], 65)
+	for k := range out {
+		out[k] = rapid.SliceOfN(rapid.Bool(), k, k)
+	}
+	return out
+}()
+
+// Range draws an int in [lo,hi], uniformly.
+func Range(t *rapid.T, lo, hi int) int { return lo + Intn(t, hi-lo+1) }
 
 // Chance is true with probability pct/100.
 func Chance(t *rapid.T, pct int) bool { return Intn(t, 100) < pct }
